@@ -222,6 +222,7 @@ def handleT [Target] (args : List String) : String :=
     | "chars_list", some s => showList showChar s.chars
     | "lines_list", some s => showList showStr (Str.lines s)
     | "from_chars", some s => showStr s
+    | "sb_eq_alias", some _ => showBool true   -- the same buffer: `Arc::ptr_eq` answers before any lock
     | _, _ =>
       match f with
       | "list_len" => showNat x.toNat!
@@ -237,18 +238,22 @@ def handleT [Target] (args : List String) : String :=
     | "chars_get", some s => showRes (showOpt showChar) (bind_StringChars_get false s (u64 b))
     | "lines_get", some s => showRes (showOpt showChar) (bind_StringLines_get false s (u64 b))
     | "repeat", some s => showRes (showLim showStr) (bind_RotoString_repeat false s (u64 b))
+    | "stringbuf", some s => showStr ⟨s.chars ++ [Char.ofNat b.toNat!] ++ s.chars⟩   -- from(s); push_char(c); push_string(s)
     | _, some s =>
       match parseStr b with
       | some t =>
         match f with
-        | "contains" => showBool (Str.contains s t)
-        | "starts_with" => showBool (Str.starts_with s t)
-        | "ends_with" => showBool (Str.ends_with s t)
+        | "contains" => showRes showBool (bind_RotoString_contains false s t)
+        | "starts_with" => showRes showBool (bind_RotoString_starts_with false s t)
+        | "ends_with" => showRes showBool (bind_RotoString_ends_with false s t)
         | "eq" => showBool (s.chars == t.chars)
+        -- `a == b` on two buffers, and not equal after `b += s; a += n` unless s = n
+        | "sb_eq" => showBool (s.chars == t.chars && !((s.chars ++ t.chars == t.chars ++ s.chars) && s.chars != t.chars))
         | "append" => showStr (Str.append s t)
-        | "strip_prefix" => showOpt showStr (Str.strip_prefix s t)
-        | "strip_suffix" => showOpt showStr (Str.strip_suffix s t)
-        | "split" => showList showStr (Str.split s t)
+        | "strip_prefix" => showRes (showOpt showStr) (bind_RotoString_strip_prefix false s t)
+        | "strip_suffix" => showRes (showOpt showStr) (bind_RotoString_strip_suffix false s t)
+        | "split" => showRes (showList showStr) (bind_RotoString_split false s t)
+        | "lines_join" => showRes showStr (bind_ErasedList_join false (Str.lines s) t)
         | _ => "bad-op"
       | none => "bad-op"
     | _, none =>
@@ -274,6 +279,13 @@ def handleT [Target] (args : List String) : String :=
     | "rsplitn", some s =>
       match parseStr c with
       | some sep => showRes (showList showStr) (bind_RotoString_rsplitn false s (u64 b) sep)
+      | none => "bad-op"
+    | "splitn_join", some s =>
+      match parseStr c with
+      | some sep2 =>
+        match bind_RotoString_splitn false s (u64 b) ⟨[',']⟩ with
+        | .ok l => showRes showStr (bind_ErasedList_join false l sep2)
+        | .panic => "panic"
       | none => "bad-op"
     | "split_join", some s =>
       match parseStr b, parseStr c with
